@@ -994,3 +994,15 @@ Definition py_quantize_v (x nd m : pyval) : res pyval :=
   | Some r => py_quantize x nd r
   | None => Raise Unmodelled
   end.
+(* ---- appended for C13: _ArrayFormulaContext.fit_to_range.  The context
+   object is modelled by the value of its [ctx_address] (None = not in an array
+   formula), an address by its [size], and an AddressSize(height, width) by the
+   pair (height, width): the only attributes fit_to_range reads. *)
+Definition attr_ctx_address (self : pyval) : res pyval := Ok self.
+Definition attr_size (addr : pyval) : res pyval :=
+  match addr with VTuple [_; _] => Ok addr | _ => Raise AttributeError end.
+Definition attr_height (sz : pyval) : res pyval :=
+  match sz with VTuple [h; _] => Ok h | _ => Raise AttributeError end.
+Definition attr_width (sz : pyval) : res pyval :=
+  match sz with VTuple [_; w] => Ok w | _ => Raise AttributeError end.
+Definition py_address_size (h w : pyval) : res pyval := Ok (VTuple [h; w]).
